@@ -130,3 +130,99 @@ def gen_fit_model():
 
 
 GENERATORS = [gen_fit_model]
+
+
+# ---------------------------------------------------------------------------------------------------------------------
+# Round 2 (L7): which instance attributes of GrangerAnalyzer are written OUTSIDE __init__ / set_input and are not
+# one-time properties.  A one-time property (`@desc.setattr_on_read`) is removed by `reset()` (called by
+# `BaseAnalyzer.set_input`); any other attribute written by a getter / helper survives a change of input (and a failed
+# read).  `Lemmas/GrangerObj.lean: retarget_after_failed_fit_is_fresh` needs the set to be empty (today it is).
+SELF_WRITERS = ('setattr', 'delattr', 'vars')
+
+
+def _is_self(node):
+    return isinstance(node, ast.Name) and node.id == 'self'
+
+
+def written_attrs(fn):
+    """names of `self` attributes a method may write: `self.x = / += / del self.x`, `setattr(self, 'x', …)`, and ANY use of
+    `self.__dict__` / `vars(self)` (reported as `__dict__`, plus the string literals passed to its methods / subscripts)"""
+    out = []
+    for node in ast.walk(fn):
+        targets = []
+        if isinstance(node, ast.Assign):
+            targets = node.targets
+        elif isinstance(node, (ast.AugAssign, ast.AnnAssign)):
+            targets = [node.target]
+        elif isinstance(node, ast.Delete):
+            targets = node.targets
+        elif isinstance(node, (ast.For, ast.AsyncFor)):
+            targets = [node.target]
+        elif isinstance(node, ast.With):
+            targets = [i.optional_vars for i in node.items if i.optional_vars is not None]
+        elif isinstance(node, ast.NamedExpr):
+            targets = [node.target]
+        for t in targets:
+            for sub in ast.walk(t):
+                if isinstance(sub, ast.Attribute) and _is_self(sub.value):
+                    out.append(sub.attr)
+        if isinstance(node, ast.Call) and isinstance(node.func, ast.Name) and node.func.id in SELF_WRITERS \
+                and node.args and _is_self(node.args[0]):
+            lit = [a.value for a in node.args[1:2] if isinstance(a, ast.Constant) and isinstance(a.value, str)]
+            out += lit or ['__dict__']
+        if isinstance(node, ast.Attribute) and node.attr == '__dict__' and _is_self(node.value):
+            out.append('__dict__')
+        if isinstance(node, ast.Call) and isinstance(node.func, ast.Attribute) and isinstance(node.func.value, ast.Attribute) \
+                and node.func.value.attr == '__dict__' and _is_self(node.func.value.value):
+            out += [a.value for a in node.args[:1] if isinstance(a, ast.Constant) and isinstance(a.value, str)]
+    return out
+
+
+def gen_granger_attrs():
+    info = {'source': 'nitime/analysis/granger.py:GrangerAnalyzer'}
+    survivors, onetime, local_acc = ['<untranslated>'], [], 'false'
+    try:
+        tree = tr.parse('nitime/analysis/granger.py')
+        cls = [n for n in ast.walk(tree) if isinstance(n, ast.ClassDef) and n.name == 'GrangerAnalyzer'][0]
+        survivors = []
+        for fn in cls.body:
+            if not isinstance(fn, ast.FunctionDef):
+                continue
+            deco = [ast.unparse(d) for d in fn.decorator_list]
+            if any(d.endswith('setattr_on_read') or d.endswith('OneTimeProperty') for d in deco):
+                onetime.append(fn.name)
+            if fn.name in ('__init__', 'set_input'):
+                continue
+            for a in written_attrs(fn):
+                tag = '%s:%s' % (fn.name, a)
+                if tag not in survivors:
+                    survivors.append(tag)
+        # the accumulator of `_model`'s loop is a local built from literals (not reached through `self`)
+        fm = tr.find_func(tree, '_model', cls='GrangerAnalyzer')
+        acc = assigns(fm.body, 'model')
+        if len(acc) == 1 and not any(_is_self(n) for n in ast.walk(acc[0].value)):
+            rets = [n for n in ast.walk(fm) if isinstance(n, ast.Return)]
+            if len(rets) == 1 and isinstance(rets[0].value, ast.Name) and rets[0].value.id == 'model':
+                local_acc = 'true'
+        info['_model.accumulator'] = ast.unparse(acc[0].value) if acc else None
+    except Exception as ex:  # noqa
+        info['error'] = repr(ex)
+        survivors = survivors or ['<untranslated>']
+    info.update(survivors=survivors, onetime=onetime, modelAccumulatorIsLocal=local_acc)
+    q = lambda l: '[' + ', '.join('"%s"' % x for x in l) + ']'
+    text = '\n'.join([
+        '-- GENERATED by harness/translate_c11.py from nitime/analysis/granger.py (class GrangerAnalyzer). DO NOT EDIT.',
+        'namespace Nitime.Generated.GrangerAttrs', '',
+        '/-- `method:attribute` for every instance attribute written (assigned, deleted, reached through `self.__dict__` /',
+        '`setattr` / `vars`) by a method other than `__init__` / `set_input`.  One-time properties store their value through the',
+        'descriptor, not in their body, so a clean class has none. -/',
+        'def survivors : List String := %s' % q(survivors), '',
+        '/-- the methods declared as one-time properties (deleted by `reset()`, hence by `set_input`) -/',
+        'def oneTime : List String := %s' % q(onetime), '',
+        '/-- `_model` collects the per-pair fits in a local built without `self` and returns it -/',
+        'def modelAccumulatorIsLocal : Bool := %s' % local_acc, '',
+        'end Nitime.Generated.GrangerAttrs', ''])
+    return 'GrangerAttrs.lean', text, info
+
+
+GENERATORS.append(gen_granger_attrs)
